@@ -830,6 +830,162 @@ def extract_loops():
         f"instance (acc M : Rat) : Decidable (sysContinuesX acc M) := inferInstanceAs (Decidable (acc {sys_op} M))\n")
 
 
+# ----------------------------------------------------------------------------------------------
+# mixture.py: the linked setters `system_mass` and `relative_mass` (C12)
+
+_MIX_FIELD = {"_absolute_mass": "abs", "_relative_mass": "rel", "_system_mass": "sys"}
+_MIX_ERR = [("negative total system mass", "negMass"), ("Invalid extra fraction", "badFraction")]
+
+
+def _mix_props(cls):
+    """property name -> field, for getters of the shape `return self._field`"""
+    props = {}
+    for n in cls.body:
+        if isinstance(n, ast.FunctionDef) and any(isinstance(d, ast.Name) and d.id == "property" for d in n.decorator_list):
+            if len(n.body) == 1 and isinstance(n.body[0], ast.Return) and isinstance(n.body[0].value, ast.Attribute) \
+                    and isinstance(n.body[0].value.value, ast.Name) and n.body[0].value.value.id == "self" and n.body[0].value.attr in _MIX_FIELD:
+                props[n.name] = _MIX_FIELD[n.body[0].value.attr]
+    return props
+
+
+def _mix_setter(cls, prop):
+    for n in cls.body:
+        if isinstance(n, ast.FunctionDef) and n.name == prop:
+            for d in n.decorator_list:
+                if isinstance(d, ast.Attribute) and d.attr == "setter" and isinstance(d.value, ast.Name) and d.value.id == prop:
+                    return n
+    raise Unsupported(f"setter of Mixture.{prop} not found")
+
+
+class _MixTr:
+    """statements of a setter -> a Lean term of type `E Mix`; `env` maps a field to the Lean term of its value where it is known to be a number"""
+
+    def __init__(self, props, arg, setters):
+        self.props, self.arg, self.setters = props, arg, setters
+
+    def field(self, e):
+        if isinstance(e, ast.Attribute) and isinstance(e.value, ast.Name) and e.value.id == "self":
+            if e.attr in _MIX_FIELD:
+                return _MIX_FIELD[e.attr]
+            if e.attr in self.props:
+                return self.props[e.attr]
+        return None
+
+    def expr(self, e, env, divs):
+        """Lean Rat term; the divisors met (evaluation order) are appended to `divs`"""
+        if isinstance(e, ast.Name) and e.id == self.arg:
+            return self.arg
+        if isinstance(e, ast.Constant) and isinstance(e.value, (int, float)) and not isinstance(e.value, bool):
+            fr = Fraction(str(e.value))
+            return f"({fr.numerator} : Rat)" if fr.denominator == 1 else f"(({fr.numerator} : Rat) / {fr.denominator})"
+        f = self.field(e)
+        if f is not None:
+            if f not in env:
+                raise Unsupported(f"Mixture setter reads `{f}` where it may be None")
+            return env[f]
+        if isinstance(e, ast.BinOp) and type(e.op) in (ast.Add, ast.Sub, ast.Mult, ast.Div):
+            l = self.expr(e.left, env, divs)
+            r = self.expr(e.right, env, divs)
+            if isinstance(e.op, ast.Div):
+                if not (isinstance(e.right, ast.Constant) and e.right.value != 0):
+                    divs.append(r)
+            sym = {ast.Add: "+", ast.Sub: "-", ast.Mult: "*", ast.Div: "/"}[type(e.op)]
+            return f"({l} {sym} {r})"
+        raise Unsupported("arithmetic of a Mixture setter: " + ast.dump(e)[:80])
+
+    def cond(self, e):
+        if isinstance(e, ast.BoolOp):
+            op = " ∨ " if isinstance(e.op, ast.Or) else " ∧ "
+            return "(" + op.join(self.cond(v) for v in e.values) + ")"
+        if isinstance(e, ast.Compare) and len(e.ops) == 1 and type(e.ops[0]) in _CMP_LEAN:
+            return f"{self.expr(e.left, {}, [])} {_CMP_LEAN[type(e.ops[0])]} {self.expr(e.comparators[0], {}, [])}"
+        raise Unsupported("condition of a Mixture setter: " + ast.dump(e)[:80])
+
+    def guard(self, divs, body):
+        for d in reversed(divs):
+            body = f"if {d} = 0 then .error .zeroDiv else {body}"
+        return body
+
+    def stmts(self, ss, cur, env, depth=0):
+        if not ss:
+            return f".ok {cur}"
+        s, rest = ss[0], ss[1:]
+        if isinstance(s, ast.Return) and s.value is None:
+            return f".ok {cur}"
+        if isinstance(s, ast.Expr) and isinstance(s.value, ast.Constant) and isinstance(s.value.value, str):
+            return self.stmts(rest, cur, env, depth)
+        if isinstance(s, ast.If) and len(s.body) == 1 and isinstance(s.body[0], ast.Raise) and not s.orelse:
+            msg = ast.unparse(s.body[0])
+            err = next((v for k, v in _MIX_ERR if k in msg), None)
+            if err is None:
+                raise Unsupported("unknown error raised in a Mixture setter")
+            return f"if {self.cond(s.test)} then .error .{err} else\n  " + self.stmts(rest, cur, env, depth)
+        if isinstance(s, ast.Assign) and len(s.targets) == 1:
+            t = s.targets[0]
+            if isinstance(t, ast.Attribute) and isinstance(t.value, ast.Name) and t.value.id == "self":
+                if t.attr in _MIX_FIELD:
+                    divs = []
+                    v = self.expr(s.value, env, divs)
+                    f = _MIX_FIELD[t.attr]
+                    env2 = dict(env)
+                    env2[f] = v
+                    return self.guard(divs, self.stmts(rest, f"{{ {cur} with {f} := some {v} }}", env2, depth))
+                if t.attr in self.setters and not rest:
+                    divs = []
+                    v = self.expr(s.value, env, divs)
+                    return self.guard(divs, f"{self.setters[t.attr]} {cur} {v}")
+        if isinstance(s, ast.If) and not s.orelse:
+            ends = isinstance(s.body[-1], ast.Return) or not rest
+            if not ends:
+                raise Unsupported("an `if` of a Mixture setter must end with `return` or be the last statement")
+            t = s.test
+            if isinstance(t, ast.Compare) and len(t.ops) == 1 and isinstance(t.ops[0], ast.IsNot) and isinstance(t.comparators[0], ast.Constant) \
+                    and t.comparators[0].value is None and self.field(t.left) is not None:
+                f = self.field(t.left)
+                if f in env:
+                    return self.stmts(list(s.body), cur, env, depth)
+                v = f"{f}{depth}"
+                env2 = dict(env)
+                env2[f] = v
+                return (f"match {cur_field(cur, f)} with\n  | some {v} => " + self.stmts(list(s.body), cur, env2, depth + 1) +
+                        "\n  | none => (" + self.stmts(rest, cur, env, depth + 1) + ")")
+            f = self.field(t)
+            if f is not None:  # Python truthiness of an optional float
+                if f in env:
+                    return f"if {env[f]} ≠ 0 then ({self.stmts(list(s.body), cur, env, depth + 1)}) else ({self.stmts(rest, cur, env, depth + 1)})"
+                v = f"{f}{depth}"
+                env2 = dict(env)
+                env2[f] = v
+                other = self.stmts(rest, cur, env, depth + 1)
+                return (f"match {cur_field(cur, f)} with\n  | some {v} => if {v} ≠ 0 then (" + self.stmts(list(s.body), cur, env2, depth + 1) + f") else ({other})"
+                        f"\n  | none => ({other})")
+        raise Unsupported("statement of a Mixture setter: " + ast.unparse(s)[:80])
+
+
+def cur_field(cur, f):
+    return f"({cur}).{f}"
+
+
+def extract_mixture(mod):
+    cls = _find_class(mod, "Mixture")
+    props = _mix_props(cls)
+    for need in ("absolute_mass", "relative_mass", "system_mass"):
+        if need not in props:
+            raise Unsupported(f"property getter Mixture.{need} must be `return self._{need}`")
+    out = []
+    fs = _mix_setter(cls, "system_mass")
+    arg = fs.args.args[1].arg
+    tr = _MixTr(props, arg, {})
+    out.append("/-- `Mixture.system_mass.setter` (mixture.py), statement by statement; Python's `ZeroDivisionError` at every division by a variable -/\n"
+               f"def setSysX (m : Mix) ({arg} : Rat) : E Mix :=\n  " + tr.stmts(list(fs.body), "m", {}))
+    fr = _mix_setter(cls, "relative_mass")
+    arg = fr.args.args[1].arg
+    tr = _MixTr(props, arg, {"system_mass": "setSysX"})
+    out.append("/-- `Mixture.relative_mass.setter` (mixture.py); the assignment to `self.system_mass` is the call of the setter above -/\n"
+               f"def setRelX (m : Mix) ({arg} : Rat) : E Mix :=\n  " + tr.stmts(list(fr.body), "m", {}))
+    return "\n\n".join(out) + "\n"
+
+
 def _part_bond():
     bond = _parse("bond.py")
     return extract_is_compatible(bond) + "\n" + extract_order_chain(bond) + "\n" + extract_compat_text(bond)
@@ -844,6 +1000,7 @@ PARTS = [
     ("FFTables", "fftables", extract_ff_tables),
     ("Choose", "choose", lambda: extract_choose(_parse("core.py"))),
     ("Loops", "loops", extract_loops),
+    ("Mixture", "mixture", lambda: extract_mixture(_parse("mixture.py"))),
 ]
 
 
@@ -866,7 +1023,7 @@ def generate(write_pinned=False):
                 os.makedirs(PINNED_DIR, exist_ok=True)
                 with open(os.path.join(PINNED_DIR, name + ".lean"), "w") as fh:
                     fh.write(text)
-        files[mod] = (HEADER % (name + (" — STALE: text of the last good tree" if name in stale else ""))) + text + "\nend GBS\n"
+        files[mod] = ("import GBS.Model.Mixture\n" if name == "mixture" else "") + (HEADER % (name + (" — STALE: text of the last good tree" if name in stale else ""))) + text + "\nend GBS\n"
     return files, stale
 
 
